@@ -54,9 +54,11 @@ def t8(x):
 
 
 def tr_tokens(tr):
+    """the TimeRange as its constructor leaves it (and as TimeRange.__eq__ compares it): an absolute start of 0 is None"""
     if tr is None:
         return ['N', 'N', '0']
-    return [t8(tr[0]), t8(tr[1]), '1' if tr[2] else '0']
+    start = None if (tr[2] and tr[0] is not None and float(tr[0]) == 0.0) else tr[0]
+    return [t8(start), t8(tr[1]), '1' if tr[2] else '0']
 
 
 def optlist(xs, f=str):
@@ -398,8 +400,9 @@ def make_jobs(ctx):
     # what a caller does with returned objects must not reach the cache; a second loader on the same file; a second
     # file on the same loader
     basic = [h for h in G.partial_invalidation_histories()[::29]] + [[a, dict(a)] for a in alpha[::2]] + [[a, b, dict(a)] for a, b in zip(alpha[::3], alpha[1::3])]
+    mh = G.mutation_histories()
     for kind in ('clear', 'append', 'popkey', 'to_numpy', 'align', 'array-write', 'payload-write'):
-        jobs.append({'log': inter, 'histories': basic, 'mutate': kind})
+        jobs.append({'log': inter, 'histories': basic + mh, 'mutate': kind})
     jobs.append({'log': inter, 'histories': basic + G.checklist_histories(inter)[::7], 'twin': True})
     jobs.append({'log': inter, 'histories': basic, 'pre': {'log': fixed, 'calls': [G.call(), G.call(types=['POSE'], num=True, keep=True), G.call(types=['POSE', 'POSE_AUX'], max=2)]}})
     jobs.append({'log': fixed, 'histories': basic[::2], 'pre': {'log': dis, 'calls': [h[0] for h in basic[:12]]}})
@@ -474,7 +477,7 @@ def run(ctx):
         ctx.sample({'log': [(m['t'], m['p1'], m['src']) for m in j['log']], 'history': [short(c) for c in j['histories'][0]],
                     'impl': [show_impl(o)[:200] for o in res[-1]['hist'][0]]})
     ctx.coverage['rule'] = ('corpus (minimised past failures) first; on the 10-message log of the library\'s own loader test every ordered pair%s over a 40-call alphabet '
-                            '(types x max_messages x numpy/keep_messages, alignment, require_p1_time, in-order); the structured family A ; B ; A (A over a type set S with a maximum of either sign / numpy / alignment, B re-reading a proper subset of S with other parameters, so the second A meets a partially valid cache) on that log and on a 16-message log interleaving four types; pairs of equal-looking argument values (same bounds as relative / absolute range in object, string, tuple and Timestamp form; the same types as list / set / tuple / classes / single value; max_messages N vs -N; no source_ids vs the full set) as A;B, B;A, A;B;A on two logs whose first P1 time is 3 s resp. 2.5 s; the checklist shapes (narrow read then a read whose limit must not see the stale filtered index; maxima 0 and |N| >= matches with require_p1_time / require_system_time; numpy reads finding messages then none; aligned reads after other types were cached; single-type aligned vs unaligned) also on a log with repeated and out-of-order P1 times; every result handed out earlier is re-canonicalised after each later read; jobs in which the caller mutates returned objects (7 kinds), a second loader reads the same file in between, or the loader had read another file before open(); then %d generated logs (5-14 messages of 4 types, first P1 time never 0 and often fractional, '
+                            '(types x max_messages x numpy/keep_messages, alignment, require_p1_time, in-order); the structured family A ; B ; A (A over a type set S with a maximum of either sign / numpy / alignment, B re-reading a proper subset of S with other parameters, so the second A meets a partially valid cache) on that log and on a 16-message log interleaving four types; pairs of equal-looking argument values (same bounds as relative / absolute range in object, string, tuple and Timestamp form; the same types as list / set / tuple / classes / single value; max_messages N vs -N; no source_ids vs the full set) as A;B, B;A, A;B;A on two logs whose first P1 time is 3 s resp. 2.5 s; the checklist shapes (narrow read then a read whose limit must not see the stale filtered index; maxima 0 and |N| >= matches with require_p1_time / require_system_time; numpy reads finding messages then none; aligned reads after other types were cached; single-type aligned vs unaligned) also on a log with repeated and out-of-order P1 times; every result handed out earlier is re-canonicalised after each later read; jobs in which the caller mutates returned objects (7 kinds; results obtained by a first read, a cached read, ignore_cache=True and return_in_order=True reads, with and without numpy / alignment / maximum, each followed by the identical read and by the same read without ignore_cache), a second loader reads the same file in between, or the loader had read another file before open(); then %d generated logs (5-14 messages of 4 types, first P1 time never 0 and often fractional, '
                             'invalid P1 stamps, 1-2 source ids; every 8th log has 24-30 messages and a source id first seen after the reader\'s sampling window) x %d histories '
                             'of 2..%d read() calls whose later calls are mostly one-argument mutations of earlier ones (so cache keys collide; 30%% of the histories of length >= 3 are random members of the A ; B ; A family). Every call of every history is '
                             'compared with the same call on a fresh loader (SPEC oracle), with the extracted MODEL (after the same history, and fresh) and its messages with the '
